@@ -207,6 +207,7 @@ func runC02(c *core.Ctx) {
 	c.Rule("R02.5", "ghost detection covers every entry kind")
 	c.Rule("R02.6", "index-space consistency")
 	c.Rule("R02.7", "directories are made after a no-follow look")
+	c.Rule("R02.8", "whole-file copies truncate their destination")
 	g := c.P.CallGraph(c.Tier == "thorough")
 	reachFrom := func(roots []*ssa.Function) map[*ssa.Function]bool {
 		reach := map[*ssa.Function]bool{}
@@ -440,6 +441,70 @@ func runC02(c *core.Ctx) {
 			})
 		}
 		c.Floor("R02.7", "MkdirAll of new-build directory entries in the bowl", nMk, 1)
+	}
+
+	// ---- R02.8: a whole-file copy onto a path that may hold a longer file truncates it: where a function copies
+	// an opened source file into a destination it opened for writing, the destination is opened with O_TRUNC
+	// (or truncated after the copy) - otherwise the tail of whatever was there survives
+	{
+		flag := func(name string) int64 {
+			if pk := c.P.All["os"]; pk != nil {
+				if k, ok := pk.Types.Scope().Lookup(name).(*types.Const); ok {
+					v, _ := constInt64(k)
+					return v
+				}
+			}
+			return -1
+		}
+		oTrunc, oWronly, oRdwr := flag("O_TRUNC"), flag("O_WRONLY"), flag("O_RDWR")
+		nCp := 0
+		for _, fn := range c.P.SrcFuncs() {
+			pk := core.PkgPathOf(fn)
+			if !strings.HasSuffix(pk, "/pwr/bowl") && !strings.HasSuffix(pk, "/archiver") {
+				continue
+			}
+			core.Instrs(fn, func(in ssa.Instruction) {
+				cp, ok := in.(*ssa.Call)
+				if !ok || (core.CalleeName(cp) != "io.Copy" && core.CalleeName(cp) != "io.CopyBuffer") || len(cp.Call.Args) < 2 {
+					return
+				}
+				var openW, openR *ssa.Call
+				for _, o := range core.Origins(cp.Call.Args[0]) {
+					if ex, ok := core.StripConv(o).(*ssa.Extract); ok {
+						if oc, ok := ex.Tuple.(*ssa.Call); ok && (strings.HasSuffix(core.CalleeName(oc), ".OpenFile")) {
+							openW = oc
+						}
+					}
+				}
+				for _, o := range core.Origins(cp.Call.Args[1]) {
+					if ex, ok := core.StripConv(o).(*ssa.Extract); ok {
+						if oc, ok := ex.Tuple.(*ssa.Call); ok && (strings.HasSuffix(core.CalleeName(oc), ".Open")) {
+							openR = oc
+						}
+					}
+				}
+				if openW == nil || openR == nil || len(openW.Call.Args) < 2 {
+					return
+				}
+				fl, isC := core.ConstInt(openW.Call.Args[1])
+				if !isC || (fl&oWronly == 0 && fl&oRdwr == 0) {
+					return
+				}
+				nCp++
+				truncs := fl&oTrunc != 0
+				if !truncs {
+					// or an explicit Truncate on the destination after the copy
+					core.Instrs(fn, func(x ssa.Instruction) {
+						if tc, ok := x.(*ssa.Call); ok && strings.HasSuffix(core.CalleeName(tc), ").Truncate") && core.FindPath(fn, cp, isInstr(x), nil) != nil {
+							truncs = true
+						}
+					})
+				}
+				c.Check(truncs, "R02.8", core.FnName(fn), "a whole-file copy truncates its destination", core.InstrPos(openW),
+					"destination opened with O_TRUNC (or truncated after the copy)", "a whole file is copied into a destination that was opened for writing without O_TRUNC and is not truncated afterwards: when the path already holds a longer file its tail survives the copy")
+			})
+		}
+		c.Floor("R02.8", "whole-file copies between opened files", nCp, 1)
 	}
 
 	// ---- R02.3
